@@ -109,6 +109,10 @@ func vals(items []ref.Val) []wire.Value {
 	return out
 }
 
+// NestedWalk, when set, decides whether Force starts a second walk of a container from
+// inside the callback of the first.
+var NestedWalk func() bool
+
 // Force converts a wire.Value into a ref.Val, forcing every lazy container
 // exactly once and closing it, and propagating the errors forcing reports.
 func Force(v wire.Value) (out ref.Val, err error) {
@@ -126,7 +130,12 @@ func Force(v wire.Value) (out ref.Val, err error) {
 	case wire.TMap:
 		m := v.GetMap()
 		out = ref.Val{T: ref.TMap, KT: byte(m.KeyType()), VT: byte(m.ValueType())}
+		firstItem := true
 		err = m.ForEach(func(it wire.MapItem) error {
+			if firstItem && m.Size() <= 64 && NestedWalk != nil && NestedWalk() {
+				m.ForEach(func(wire.MapItem) error { return nil })
+			}
+			firstItem = false
 			k, err := Force(it.Key)
 			if err != nil {
 				return err
@@ -150,7 +159,14 @@ func Force(v wire.Value) (out ref.Val, err error) {
 			out = ref.Val{T: ref.TList}
 		}
 		out.VT = byte(l.ValueType())
+		first := true
 		err = l.ForEach(func(it wire.Value) error {
+			if first && l.Size() <= 64 && NestedWalk != nil && NestedWalk() {
+				// a second walk of the same container from inside the first (what a pairwise
+				// comparison does); it must not disturb the walk it interrupts
+				l.ForEach(func(wire.Value) error { return nil })
+			}
+			first = false
 			x, err := Force(it)
 			if err != nil {
 				return err
